@@ -63,4 +63,6 @@ CORPUS += [
 CORPUS += [
     M("counter-restarts-with-handshake", L, "        # Flush any existing data from the queue\n        self._flush()\n\n        try:\n            self._handshake_pending = True",
       "        # Flush any existing data from the queue\n        self._flush()\n        self._packet_id = 0\n\n        try:\n            self._handshake_pending = True"),
+    M("lifetime-armed-after-a-yield", L, "        self._protocol = protocol\n\n        if self._max_connection_lifetime:", "        self._protocol = protocol\n        await asyncio.sleep(0)\n\n        if self._max_connection_lifetime:"),
+    M("n-lifetime-armed-after-a-log", L, "        self._protocol = protocol\n\n        if self._max_connection_lifetime:", "        self._protocol = protocol\n        _LOGGER.debug(\"Connected.\")\n\n        if self._max_connection_lifetime:", "S"),
 ]
